@@ -842,6 +842,7 @@ impl TransportHandle {
 
     /// Create a protocol message wrapper (WireMessage serialized with postcard).
     fn create_protocol_message(&self, protocol: &str, data: Vec<u8>) -> Result<Vec<u8>> {
+        #[cfg(not(feature = "verif-hooks"))]
         let timestamp = std::time::SystemTime::now()
             .duration_since(std::time::UNIX_EPOCH)
             .map_err(|e| {
@@ -850,6 +851,8 @@ impl TransportHandle {
                 ))
             })?
             .as_secs();
+        #[cfg(feature = "verif-hooks")]
+        let timestamp = crate::verif_hooks::unix_secs();
 
         let message = WireMessage {
             protocol: protocol.to_string(),
